@@ -21,7 +21,7 @@ from typing import Any, Self, TYPE_CHECKING
 
 import numpy as np
 
-from cirq import linalg, protocols, qis, sim
+from cirq import linalg, protocols, qis, sim, value
 from cirq._compat import proper_repr
 from cirq.linalg import transformations
 from cirq.sim.simulation_state import SimulationState, strat_act_on_from_apply_decompose
@@ -349,6 +349,10 @@ class StateVectorSimulationState(SimulationState[_BufferedStateVector]):
             classical_data: The shared classical data container for this
                 simulation.
         """
+        if isinstance(initial_state, value.ProductState) and qubits is not None:
+            if set(initial_state.qubits) == set(qubits):
+                # Express the product state in this simulation's qubit order.
+                initial_state = initial_state.state_vector(qubit_order=qubits)
         state = _BufferedStateVector.create(
             initial_state=initial_state,
             qid_shape=tuple(q.dimension for q in qubits) if qubits is not None else None,
